@@ -119,13 +119,15 @@ Proof. unfold find_tx. intros H. apply find_some in H. exact (proj1 H). Qed.
 
 Lemma run_input_hcur f now s i t : f_tx_hist f = true -> now <= t -> InvT s -> HCur s t -> HCur (outcome_state (run_input f now s i) s) t.
 Proof.
-  intros Fh Hnow HT HC. destruct i as [ps ts ref md amd force | id force at_eff rmeta | [a|id] md | [a|id] k]; simpl.
-  - destruct ps as [|p ps']; [exact HC|].
+  intros Fh Hnow HT HC. script_split i.
+  { simpl. unfold create_tx. destruct ps as [|p ps']; [exact HC|].
     destruct (feasible force (s_vols s) (p :: ps')); simpl; [|exact HC].
     destruct (commit_transaction f now s (p :: ps') md ts ref) as [s1 [x|]] eqn:E; simpl.
     + pose proof (upsert_tx_accounts_frame f now s1 x amd) as (_ & Htx & _ & Hth & _ & Hn & _).
       eapply hcur_same_tables; [exact Htx | exact Hth | lia | eapply commit_hcur; eassumption].
-    + eapply commit_hcur; eassumption.
+    + eapply commit_hcur; eassumption. }
+  destruct i as [ps ts ref md amd force | id force at_eff rmeta | [a|id] md | [a|id] k | ps ts ref md amd force smd samd];
+    [apply Hc | | | | | | script_bullet Hc]; simpl.
   - destruct (find_tx (s_txs s) id) as [x|] eqn:F; [|exact HC].
     destruct (t_rev x); [exact HC|].
     set (mark := fun y : tx => tx_with y (t_meta y) now (Some now)).
@@ -200,13 +202,15 @@ Proof. intros E Hle. exists []. rewrite E, app_nil_r. repeat split; [constructor
 
 Lemma run_input_hist_ext f now s i t : t < now -> hist_ext f t s (outcome_state (run_input f now s i) s).
 Proof.
-  intros Hnow. destruct i as [ps ts ref md amd force | id force at_eff rmeta | [a|id] md | [a|id] k]; simpl.
-  - destruct ps as [|p ps']; [apply hist_ext_refl|].
+  intros Hnow. script_split i.
+  { simpl. unfold create_tx. destruct ps as [|p ps']; [apply hist_ext_refl|].
     destruct (feasible force (s_vols s) (p :: ps')); simpl; [|apply hist_ext_refl].
     destruct (commit_transaction f now s (p :: ps') md ts ref) as [s1 [x|]] eqn:E; simpl.
     + pose proof (upsert_tx_accounts_frame f now s1 x amd) as (_ & _ & _ & Hth & _ & Hn & _).
       eapply hist_ext_trans; [eapply commit_hist_ext; eassumption | apply hist_ext_same; [exact Hth | lia]].
-    + eapply commit_hist_ext; eassumption.
+    + eapply commit_hist_ext; eassumption. }
+  destruct i as [ps ts ref md amd force | id force at_eff rmeta | [a|id] md | [a|id] k | ps ts ref md amd force smd samd];
+    [apply Hc | | | | | | script_bullet Hc]; simpl.
   - destruct (find_tx (s_txs s) id) as [x|]; [|apply hist_ext_refl].
     destruct (t_rev x); [apply hist_ext_refl|].
     set (mark := fun y : tx => tx_with y (t_meta y) now (Some now)).
